@@ -162,8 +162,11 @@ def do_request(world, req):
     if kind == "concat":
         node, path = world.node(req[1])
         a, b = list(req[2]), list(req[3])
-        whole = node.derive_path(a + b)
-        parts = node.derive_path(a).derive_path(b)
+        lst = list(a)                       # one list object, extended in place between the two calls
+        first = node.derive_path(lst)
+        lst.extend(b)
+        whole = node.derive_path(lst)
+        parts = first.derive_path(b)
         return [summary(whole), summary(parts)], []
     if kind == "gen_take":
         node, path = world.node(req[1])
